@@ -32,7 +32,11 @@ def collect_inputs(trace):
 def trace_excerpt(trace, limit=60):
     out = []
     for s in trace or []:
-        if s.get('stepType') == 'assignment' and not (s.get('lhs') or '').startswith('__CPROVER'):
+        fn = (s.get('sourceLocation', {}) or {}).get('function') or ''
+        lhs = s.get('lhs') or ''
+        if fn.startswith('__CPROVER') or lhs.startswith('__') or lhs.startswith('return_value___VERIFIER') or lhs.startswith('goto_symex'):
+            continue
+        if s.get('stepType') == 'assignment':
             d = s.get('value', {}).get('data')
             if d is None:
                 continue
